@@ -106,7 +106,8 @@ def run_path(kernel, params, prefix, vals, opts, trace=False):
         # fidelity material: the model of the path condition, expected observations
         try:
             expected = [(n, jsonable(model_value(m0, v))) for n, v in c.observed]
-            res['fidelity'] = dict(inputs=inputs0, observed=expected)
+            if not res['cuts']:       # a cut path stopped early: the concrete run would go on, nothing to compare
+                res['fidelity'] = dict(inputs=inputs0, observed=expected)
         except OutOfModel as e:
             res['status'] = 'oom'
             res['oom'] = 'observe: %s' % e
